@@ -115,7 +115,18 @@ func c19Edit(rt *rapid.T, label string, v interface{}, depth int, edits *[]strin
 		n := rapid.IntRange(0, 3).Draw(rt, label+".naedits")
 		for i := 0; i < n; i++ {
 			l := fmt.Sprintf("%s.a%d", label, i)
-			switch c := rapid.IntRange(0, 4).Draw(rt, l+".kind"); {
+			switch c := rapid.IntRange(0, 5).Draw(rt, l+".kind"); {
+			case c == 5 && len(x) > 1:
+				// the same elements in another order (a target that differs from the current value by order only)
+				if rapid.Bool().Draw(rt, l+".reverse") {
+					for a, b := 0, len(x)-1; a < b; a, b = a+1, b-1 {
+						x[a], x[b] = x[b], x[a]
+					}
+				} else {
+					a := rapid.IntRange(0, len(x)-2).Draw(rt, l+".swap")
+					x[a], x[a+1] = x[a+1], x[a]
+				}
+				*edits = append(*edits, "array-reorder")
 			case c == 0 && len(x) > 0:
 				p := rapid.IntRange(0, len(x)-1).Draw(rt, l+".rm")
 				x = append(append([]interface{}{}, x[:p]...), x[p+1:]...)
